@@ -22,7 +22,7 @@ def instances(tier, rng):
     seen_shapes = set()
     for cls, u0 in items:
         variants_u = [u0, F.perturb(u0, rng), F.wild(u0, rng)]
-        if cls == "kLeastAbsErrors" and len(u0["nodes"]) >= 5 and str(u0["edges"]) not in seen_shapes:
+        if len(u0["nodes"]) >= 5 and str(u0["edges"]) not in seen_shapes:       # (DAG and cyclic motifs alike)
             seen_shapes.add(str(u0["edges"]))
             variants_u += F.bridge_patterns(u0)       # heavy routes over one light element
         for u in variants_u:
